@@ -26,7 +26,7 @@ def default_atom_of_place(place):
 
 
 def paths(f, start, end_kind, atom_of_place=default_atom_of_place, discr_variants=None, max_paths=5000, max_len=400,
-          pure_calls=("::is_empty",), track_return=False, env0=None):
+          pure_calls=("::is_empty",), track_return=False, env0=None, call_atom=None):
     """end_kind(block) -> None (keep going) | str (stop, path ends with that kind; evaluated BEFORE the block's statements for
     blocks other than the start).  discr_variants: callable(atom) -> [variant names] for ('discr', ..) atoms.
     track_return: record the value assigned to _0 (const int / atom) in Path.ret."""
@@ -48,18 +48,41 @@ def paths(f, start, end_kind, atom_of_place=default_atom_of_place, discr_variant
             return None
         return val_of_place(env, pl)
 
+    def resolve(env, pl):
+        """Substitute bound tuples / references: returns (effective place or None, value or None)."""
+        base, proj = pl["l"], list(pl["p"])
+        for _ in range(8):
+            v = env.get(base)
+            if v is None:
+                break
+            if v[0] == "tuple" and proj and isinstance(proj[0], dict) and "i" in proj[0] and proj[0]["i"] < len(v[1]):
+                v = v[1][proj[0]["i"]]
+                proj = proj[1:]
+                if v is None:
+                    return None, None
+                if not proj:
+                    return None, v
+                if v[0] == "ref" and proj[0] == "deref":
+                    base, proj = v[1]["l"], list(v[1]["p"]) + proj[1:]
+                    continue
+                return None, None
+            if v[0] == "ref" and proj and proj[0] == "deref":
+                base, proj = v[1]["l"], list(v[1]["p"]) + proj[1:]
+                continue
+            if not proj:
+                return None, v
+            break
+        return {"l": base, "p": proj}, None
+
     def val_of_place(env, pl):
-        if not pl["p"]:
-            return env.get(pl["l"])
-        base = env.get(pl["l"])
-        # through a reference bound earlier: (*_r).x where _r = &place
-        if base is not None and base[0] == "ref":
-            inner = {"l": base[1]["l"], "p": list(base[1]["p"]) + [e for e in pl["p"] if e != "deref" or False]}
-            if pl["p"] and pl["p"][0] == "deref":
-                inner = {"l": base[1]["l"], "p": list(base[1]["p"]) + list(pl["p"][1:])}
-            a = atom_of_place(inner)
-            return ("atom", a, False) if a is not None else None
-        a = atom_of_place(pl)
+        eff, v = resolve(env, pl)
+        if v is not None:
+            return v
+        if eff is None:
+            return None
+        if not eff["p"]:
+            return env.get(eff["l"])
+        a = atom_of_place(eff)
         return ("atom", a, False) if a is not None else None
 
     def step(b, i, env, cons, opaque, seen, ret):
@@ -86,22 +109,29 @@ def paths(f, start, end_kind, atom_of_place=default_atom_of_place, discr_variant
                 elif x is not None and x[0] == "atom":
                     v = ("atom", x[1], not x[2])
             elif k == "discr":
-                a = val_of_place(env, rv["place"]) if rv["place"]["p"] else env.get(rv["place"]["l"])
-                pl = rv["place"]
-                base = env.get(pl["l"])
-                if pl["p"] == ["deref"] and base is not None and base[0] == "ref":
-                    pl = base[1]
-                at = atom_of_place(pl)
-                if at is not None:
-                    v = ("discr", ("discr",) + tuple(at[1:]))
-                elif a is not None and a[0] == "atom":
-                    v = ("discr", ("discr",) + tuple(a[1][1:]))
+                eff, bound = resolve(env, rv["place"])
+                if bound is not None and bound[0] == "atom":
+                    v = ("discr", ("discr",) + tuple(bound[1][1:]))
+                elif eff is not None:
+                    if not eff["p"]:
+                        a0 = env.get(eff["l"])
+                        if a0 is not None and a0[0] == "atom":
+                            v = ("discr", ("discr",) + tuple(a0[1][1:]))
+                    else:
+                        at = atom_of_place(eff)
+                        if at is not None:
+                            v = ("discr", ("discr",) + tuple(at[1:]))
+            elif k == "agg":
+                if rv.get("ak") == "tuple":
+                    v = ("tuple", [val_of_operand(env, o) for o in rv["ops"]])
+                elif rv.get("ak") == "adt" and not rv["ops"] and rv.get("variant"):
+                    v = ("const", rv["variant"])
             elif k == "ref":
-                pl = rv["place"]
-                base = env.get(pl["l"])
-                if pl["p"] and pl["p"][0] == "deref" and base is not None and base[0] == "ref":
-                    pl = {"l": base[1]["l"], "p": list(base[1]["p"]) + list(pl["p"][1:])}
-                v = ("ref", pl)
+                eff, bound = resolve(env, rv["place"])
+                if eff is not None:
+                    v = ("ref", eff)
+                elif bound is not None and bound[0] == "ref":
+                    v = bound
             elif k == "binop" and rv["op"] in ("Eq", "Ne", "BitAnd", "BitOr"):
                 x, y = val_of_operand(env, rv["a"]), val_of_operand(env, rv["b"])
                 if x is not None and y is not None and x[0] == "const" and y[0] == "const":
@@ -131,6 +161,8 @@ def paths(f, start, end_kind, atom_of_place=default_atom_of_place, discr_variant
                         v = ("atom", (cal.rsplit("::", 1)[1],) + tuple(at[1:]), False)
                 elif a is not None and a[0] == "atom":
                     v = ("atom", (cal.rsplit("::", 1)[1],) + tuple(a[1][1:]), False)
+            elif call_atom is not None and call_atom(t, lambda o: val_of_operand(env, o)) is not None:
+                v = call_atom(t, lambda o: val_of_operand(env, o))
             elif cal.endswith(("Deref>::deref", "::as_ref", "::as_slice", "::as_str", "::iter", "::borrow")) and t["args"]:
                 a = val_of_operand(env, t["args"][0])
                 if a is not None and a[0] in ("ref", "atom"):
@@ -141,7 +173,7 @@ def paths(f, start, end_kind, atom_of_place=default_atom_of_place, discr_variant
                 else:
                     env[t["dst"]["l"]] = v
                 if track_return and t["dst"]["l"] == 0:
-                    ret = v
+                    ret = v if v is not None else ("call", cal, [val_of_operand(env, a_) for a_ in t["args"]])
             nxt = t.get("target")
             if nxt is None:
                 out.append(Path(dict(cons), ("diverge", b), opaque, ret))
@@ -166,12 +198,18 @@ def paths(f, start, end_kind, atom_of_place=default_atom_of_place, discr_variant
                 atom = v[1]
                 names = discr_variants(atom) if discr_variants else None
                 used = set()
+                if isinstance(names, dict):
+                    all_names = list(names.values())
+                    name_of = lambda v_: names.get(v_, v_)
+                else:
+                    all_names = list(names or [])
+                    name_of = lambda v_: names[v_] if names and v_ < len(names) else v_
                 for val, tgt in vals:
-                    nm = names[val] if names and val < len(names) else val
+                    nm = name_of(val)
                     used.add(nm)
                     succs.append((tgt, (atom, nm)))
                 if oth is not None and names:
-                    for nm in names:
+                    for nm in all_names:
                         if nm not in used:
                             succs.append((oth, (atom, nm)))
                 elif oth is not None and not _is_unreachable(f, oth):
